@@ -29,6 +29,9 @@ def units(ctx):
     us = []
     fam2 = cones.family_2d(ctx.thorough, ctx.seed)
     fam3 = cones.family_3d(ctx.thorough)
+    # integer-dtype cone matrices (the form used in the class docstring): float vectors must not be truncated
+    fam2 = fam2 + [("Wint", ((1, 0), (0, 1))), ("Wint", ((1, 1), (-1, 2))), ("Wint", ((2, -1), (-1, 2)))]
+    fam3 = fam3 + [("Wint", ((1, 0, 0), (0, 1, 0), (0, 0, 1)))]
     for sc in lattice.scales_for(ctx.thorough, ctx.seed, 2):
         for spec in fam2:
             us.append(("rel", spec, 2, sc, ctx.seed))
